@@ -53,6 +53,11 @@ class _OffsetParseBucket(_ParseBucket[Offset]):
         )
         if self._is_negative:
             seconds = -seconds
+        # Each field is within its own range (e.g. hours 0-23), but the combination may still be more than 18 hours.
+        if seconds < Offset.min_value.seconds or seconds > Offset.max_value.seconds:
+            return ParseResult[Offset]._for_invalid_value_post_parse(
+                value, _TextErrorMessages.OVERALL_VALUE_OUT_OF_RANGE, Offset.__name__
+            )
         return ParseResult[Offset].for_value(Offset.from_seconds(seconds))
 
 
